@@ -5,6 +5,10 @@ Drives two real `transit.Connection` objects (owners: a real `TransitSender` and
 in-memory transports.  The bytes one side writes are manipulated / chunked by the case and fed to
 the other side's `dataReceived`.
 
+Case kind `links` (run_links): several such connection pairs - links with different transit keys, opened at any moment -
+live in one process and all their events are interleaved in one schedule; nothing on the Connection objects is replaced
+or wrapped there, and the model is the product of the per-connection models (WV.C06.pstep, Props/C06_Links.lean).
+
 Line protocol choice (see lean/WV/Model/C06.lean): the lines carry the REAL ciphertext bytes, so the
 model runs its framing / nonce / state logic on exactly the bytes the real code sees.  The only thing
 abstracted is XSalsa20-Poly1305 itself, and it is abstracted as the ideal AEAD functionality: the
@@ -48,6 +52,14 @@ if os.path.exists(os.path.join(os.path.dirname(os.path.dirname(os.path.dirname(o
 if os.path.exists(os.path.join(os.path.dirname(os.path.dirname(os.path.dirname(os.path.abspath(__file__)))),
                                "lean", "WV", "Props", "C06_Thresh.lean")):
     PROP_MODULES.append("WV.Props.C06_Thresh")
+# several Connection objects in one process: the product of the per-connection models (links_independent, link_projection,
+# every_link_prefix, every_link_delivery_exact)
+PROP_MODULES.append("WV.Props.C06_Links")
+# … and the real objects are a product too (flag `shared_between_connections`, agents/sC06_shared.diff): part of the
+# check as soon as its module is installed together with the translator's section
+if os.path.exists(os.path.join(os.path.dirname(os.path.dirname(os.path.dirname(os.path.abspath(__file__)))),
+                               "lean", "WV", "Props", "C06_Objects.lean")):
+    PROP_MODULES.append("WV.Props.C06_Objects")
 TRUSTED = ["XSalsa20-Poly1305 (NaCl SecretBox): an interface in Lean whose ideal-AEAD properties are hypotheses "
            "(only the honest sealings open); the harness runs real NaCl against the ideal table on every case",
            "HKDF: injective in CTXinfo (hypothesis); the CTXinfo strings themselves are regenerated from /repo",
@@ -84,6 +96,16 @@ RULE = ("two real Connections (TransitSender/TransitReceiver owners, real handsh
         "records which records it was given, when it was unregistered and when its Deferred fired; "
         "the order in which records leave the connection is observed by instrumenting the "
         "inbound queue in-process; "
+        "several live Connection objects in one process (case kind `links`, nothing on the objects replaced or wrapped): 1-3 "
+        "links with different transit keys, both ends of each in this process, records in both directions, links opened at any "
+        "moment (sessions side by side and one after the other, earlier ones ending - lost / closed / abandoned - with unread "
+        "records parked), sends / deliveries in any chunks / application scripts / losses of all connections interleaved in one "
+        "schedule, twins (same sizes at the same positions on two links), frames of another link, of the other direction, the "
+        "connection's own, replayed or altered spliced in; every interleaving of send / deliver / read on two links and on the "
+        "two ends of one link (small scope, complete in the thorough tier); at the end everything parked is read out through "
+        "receive_record(); oracle per connection: what it surfaces is exactly / a prefix of what ITS peer sealed for it "
+        "(foreign-record, not-a-prefix, lossless, manipulated-delivered, not-dropped), an operation on one connection makes no "
+        "other connection do anything (link-disturbed), plus the loss and threshold clauses; "
         "non-trivial = at least one record accepted or one manipulation detected; distinct = distinct canonical traces")
 
 SPEC_CTX = {"S": b"transit_record_sender_key", "R": b"transit_record_receiver_key"}   # key a side SENDS with
@@ -104,13 +126,18 @@ def payload(size, seed):
     return (blk * (size // 61 + 1))[:size]
 
 
-def spec_key(sender_role):
-    return HKDF(KEY, 32, CTXinfo=SPEC_CTX[sender_role])
+def spec_key(sender_role, key=None):
+    return HKDF(KEY if key is None else key, 32, CTXinfo=SPEC_CTX[sender_role])
 
 
-def spec_sealed(sender_role, nonce_int, pt):
+def spec_sealed(sender_role, nonce_int, pt, key=None):
     """MAC||ciphertext of `pt` as the protocol documents it, computed without the code under test."""
-    return crypto_secretbox(pt, be(nonce_int, 24), spec_key(sender_role))
+    return crypto_secretbox(pt, be(nonce_int, 24), spec_key(sender_role, key))
+
+
+def link_key(link):
+    """the transit key of link number `link` (link 0 has the key of the one-link cases)"""
+    return KEY if link == 0 else hashlib.sha256(b"verif C06 transit key of link %d" % link).digest()
 
 
 @implementer(ITransport, IConsumer)
@@ -218,6 +245,8 @@ def new_trace(expected):
 def note_write(side, trace, b):
     # the record being written is the one that left the connection last (the spies on the inbound queue and on
     # recordReceived note it just before _writeToConsumer runs); the kick of expected=0 is no record
+    if not side.spy and trace["expected"] != 0:
+        side.surf.append(b)      # no instrumentation: the record leaves the connection by this very write
     trace["w"].append((None if trace["expected"] == 0 else len(side.surf) - 1, b))
 
 
@@ -253,13 +282,18 @@ def _logging_file_consumer(side, trace=None):
 class Side:
     """one real Connection, negotiated for real, plus the observation of everything it does"""
 
-    def __init__(self, role):
+    def __init__(self, role, key=None, spy=True):
+        """`spy=False`: the Connection object is left exactly as the code built it (nothing is replaced or wrapped on
+        it, so whatever its instances share stays shared); the order in which records leave it is then the order of
+        the read callbacks and consumer writes themselves"""
         self.role = role
+        self.key = KEY if key is None else key
+        self.spy = spy
         self.ev = []
         self.clock = Clock()
         cls = transit.TransitSender if role == "S" else transit.TransitReceiver
         self.owner = cls(None, no_listen=True, reactor=self.clock)
-        self.owner.set_transit_key(KEY)
+        self.owner.set_transit_key(self.key)
         self.conn = transit.Connection(self.owner, None, 0.0, "desc")
         self.conn.callLater = self.clock.callLater      # TimeoutMixin hook: no global reactor
         self.conn.factory = _Factory()
@@ -277,6 +311,8 @@ class Side:
         self.surf = []
         self.second_attach = []   # every connectConsumer call that found a consumer attached, or raised
         side = self
+        if not spy:
+            return
 
         class SpyDeque(deque):
             def popleft(self_):
@@ -301,8 +337,8 @@ class Side:
 
     def handshake_bytes(self):
         if self.role == "S":
-            return transit.build_receiver_handshake(KEY)
-        return transit.build_sender_handshake(KEY) + b"go\n"
+            return transit.build_receiver_handshake(self.key)
+        return transit.build_sender_handshake(self.key) + b"go\n"
 
     def start(self, leftover):
         c = self.conn
@@ -363,6 +399,8 @@ class Side:
 
         def cb(r):
             self.read_result[rid] = ("ok", bytes(r))
+            if not self.spy:
+                self.surf.append(bytes(r))
             self.ev.append(f"r{rid}={hx(bytes(r))}")
             self.run_script(on_fire)
 
@@ -439,7 +477,8 @@ class Side:
             cons = f"{c._consumer_bytes_written}/{'none' if ex is None else ex}"
         else:
             cons = "-"
-        wait = " ".join(str(self.reads[id(d)][0]) for d in c._waiting_reads)
+        # a Deferred this connection never handed out (another connection's) shows as "?"
+        wait = " ".join(str(self.reads.get(id(d), ("?", None))[0]) for d in c._waiting_reads)
         ev = " ".join(self.ev)
         self.all_ev = getattr(self, "all_ev", []) + self.ev
         self.ev = []
@@ -450,8 +489,8 @@ class Side:
 # ---------------------------------------------------------------------------
 # manipulations of the frame list / byte stream
 
-def spec_frame(sender_role, nonce_int, pt):
-    enc = be(nonce_int, 24) + spec_sealed(sender_role, nonce_int, pt)
+def spec_frame(sender_role, nonce_int, pt, key=None):
+    enc = be(nonce_int, 24) + spec_sealed(sender_role, nonce_int, pt, key)
     return be(len(enc), 4) + enc
 
 
@@ -753,6 +792,8 @@ def threshold_oracle(rcv, tags):
 
 
 def run_case(case):
+    if case.get("kind") == "links":
+        return run_links(case)
     rnd = random.Random(case.get("mseed", 0))
     snd_role = case["dir"]                  # who sends the records
     rcv_role = "R" if snd_role == "S" else "S"
@@ -1028,6 +1069,309 @@ def run_case(case):
     nontrivial = bool(surfaced) or hung or bool(rcv.read_result)
     return Result(lines, exp, viol, tags, nontrivial=nontrivial)
 
+
+
+# ---------------------------------------------------------------------------
+# several live Connection objects in one process (case kind "links")
+#
+# 1..3 links, each with its own transit key and two real Connection objects (both ends live in this process), created
+# at any moment of the schedule (a later session after an earlier one); records travel in both directions of every
+# link; sends, deliveries (any chunking), application scripts, losses and tampering of all links are interleaved in one
+# schedule.  Nothing on the Connection objects is replaced or wrapped (Side(spy=False)).  Every schedule step is one
+# model line on the one connection it names; the model is the product of the per-connection models (WV.C06.pstep).
+#
+#   ["open", L]                      both ends of link L are built and negotiated (real handshake)
+#   ["send", L, role, size, seed]    that end calls send_record(); the bytes wait on the wire for the other end
+#   ["deliver", L, role, n]          up to n (None: all) of the bytes waiting for that end arrive in one dataReceived
+#   ["call", L, role, script]        application code calls the API of that end (scripts as in the one-link cases)
+#   ["lost", L, role, why]           connectionLost(reason) on that end
+#   ["tamper", L, role, manip]       the bytes waiting for that end are manipulated by someone without the key:
+#        ["flip", unit, off, bit] | ["cross", L2, role2, idx, at] (a frame sealed for another connection - another link,
+#        another key) | ["own", idx, at] (a frame this end sealed itself, reflected) | ["replay", idx, at]
+
+def conn_name(link, role):
+    return role + ("" if link == 0 else str(link))
+
+
+class LinkEnd:
+    def __init__(self, link, role):
+        self.link, self.role = link, role
+        self.name = conn_name(link, role)
+        self.key = link_key(link)
+        self.side = Side(role, key=self.key, spy=False)
+        self.units = []          # what is on the wire for this end: frames (honest, altered, injected); [0] may be a remainder
+        self.partial = False     # units[0] is the rest of a frame whose beginning has been delivered
+        self.hist = []           # the honest frames its peer wrote for it, in order
+        self.sent = []           # the records its peer passed to send_record (successfully)
+        self.fed = b""
+        self.excs = []
+        self.lost_called = False
+        self.seen_foreign = 0    # events that appeared on this end during an operation on another connection
+
+
+def run_links(case):
+    lines, exp, viol, tags = [], [], [], []
+    ends = {}                 # (link, role) -> LinkEnd, in order of creation
+    why_default = case.get("loss", "done")
+    tags.append("links:class-" + case.get("cls", "?"))
+
+    def peer(e):
+        return ends[(e.link, "R" if e.role == "S" else "S")]
+
+    def do(line, e, exc=None):
+        lines.append(line)
+        exp.append(e.side.summary(exc))
+        e.seen_foreign = 0          # its own events were taken by summary()
+        # links_independent on the real objects: an operation on one connection makes no other connection do anything
+        for o in ends.values():
+            if o is not e and len(o.side.ev) > o.seen_foreign:
+                new = o.side.ev[o.seen_foreign:]
+                o.seen_foreign = len(o.side.ev)
+                viol.append(("link-disturbed", f"`{line[:60]}` is an operation on connection {e.name}, but connection {o.name} "
+                                               f"(link {o.link}, another Connection object) did {new[:4]}"))
+                tags.append("links:disturbed")
+
+    def report_loss(e, why):
+        if e.lost_called:
+            return
+        e.lost_called = True
+        sd = e.side
+        sd.lost_at_id = sd.next_id
+        for rec in sd.consumers:
+            h = rec["holder"]
+            rec["pending_at_loss"] = (rec["d"] is not None and "done" not in h and "fail" not in h and not rec.get("detached"))
+        if why == "done":
+            sd.conn.connectionLost(Failure(tw_error.ConnectionDone()))
+        elif why == "reset":
+            sd.conn.connectionLost(Failure(tw_error.ConnectionLost()))
+        else:
+            why = "none"
+            sd.conn.connectionLost()
+        do(f"lost {e.name} {why}", e)
+        tags.append("links:loss")
+
+    def after(e):
+        # the reactor reports the loss of a connection the code dropped (or the application closed)
+        if e.side.pipe.lost > 0 and not e.lost_called:
+            report_loss(e, why_default)
+
+    def others_state():
+        # what is queued / waiting elsewhere when something happens here (distribution only)
+        return [(o, len(o.side.conn._inbound_records), len(o.side.conn._waiting_reads)) for o in ends.values()]
+
+    for op in case["sched"]:
+        k = op[0]
+        if k == "open":
+            L = op[1]
+            if (L, "S") in ends:
+                continue
+            if any(not o.lost_called and o.side.conn._inbound_records for o in ends.values()):
+                tags.append("links:opened-while-records-queued-elsewhere")
+            if any(o.lost_called and o.side.conn._inbound_records for o in ends.values()):
+                tags.append("links:session-after-one-that-ended-with-unread-records")
+            for role in ("S", "R"):
+                e = LinkEnd(L, role)
+                ends[(L, role)] = e
+                exc = e.side.start(b"")
+                do(f"start {e.name} -", e, exc)
+            continue
+        e = ends.get((op[1], op[2]))
+        if e is None:
+            continue
+        sd = e.side
+        if k == "send":
+            if e.lost_called or sd.pipe.lost:
+                continue            # a transport that is gone carries nothing
+            pt = payload(op[3], op[4])
+            pr = peer(e)
+            nonce = sd.conn.send_nonce
+            sealed = spec_sealed(e.role, nonce, pt, e.key)
+            before = len(sd.pipe.written)
+            exc = None
+            try:
+                sd.conn.send_record(pt)
+            except Exception as x:
+                exc = type(x).__name__
+            w = sd.pipe.written[before:]
+            do(f"send {e.name} {hx(pt)} {hx(sealed)}", e, exc)
+            want = spec_frame(e.role, len(pr.sent), pt, e.key)
+            if b"".join(w) != want or len(w) != 2 or exc:
+                viol.append(("wire-not-spec", f"send_record #{len(pr.sent)} by {e.name} wrote {[x[:30].hex() for x in w]} exc={exc}; "
+                                              f"the transit wire format (this link's key) wants {want[:30].hex()}… ({len(want)} bytes)"))
+            if not exc:
+                pr.sent.append(pt)
+                pr.hist.append(b"".join(w))
+                pr.units.append(b"".join(w))
+            after(e)
+        elif k == "deliver":
+            if e.lost_called or not e.units:
+                continue
+            n = op[3]
+            total = sum(len(u) for u in e.units)
+            n = total if n is None else max(1, min(n, total))
+            ch = b""
+            e.partial = False
+            while len(ch) < n:
+                u = e.units.pop(0)
+                take = n - len(ch)
+                ch += u[:take]
+                if take < len(u):
+                    e.units.insert(0, u[take:])
+                    e.partial = True
+            for o, q, wt in others_state():
+                if o is not e and not o.lost_called:
+                    if q:
+                        tags.append("links:arrival-while-records-queued-on-another-connection")
+                    if wt:
+                        tags.append("links:arrival-while-read-pending-on-another-connection")
+                    if o.side.conn._consumer is not None:
+                        tags.append("links:arrival-while-consumer-attached-on-another-connection")
+            exc = None
+            try:
+                sd.conn.dataReceived(ch)
+            except Exception as x:
+                exc = type(x).__name__
+                e.excs.append(exc)
+            e.fed += ch
+            do(f"data {e.name} {hx(ch)}", e, exc)
+            after(e)
+        elif k == "call":
+            if any(a[0] == "r" for a in op[3]):
+                for o, q, wt in others_state():
+                    if o is not e and q:
+                        tags.append("links:read-while-records-queued-on-" + ("the-other-end" if o.link == e.link else "another-link")
+                                    + ("-of-an-ended-session" if o.lost_called else ""))
+            if any(a[0] == "c" for a in op[3]):
+                if any(o is not e and q for o, q, wt in others_state()):
+                    tags.append("links:consumer-attached-while-records-queued-elsewhere")
+            sd.run_script(op[3])
+            do(f"call {e.name} {encode_script(op[3])}", e)
+            tags.extend("links:" + t for t in script_tags(op[3]))
+            after(e)
+        elif k == "lost":
+            report_loss(e, op[3])
+        elif k == "tamper":
+            m = op[3]
+            lo = 1 if e.partial and e.units else 0     # injected frames go to a frame boundary, not into a frame under way
+            if m[0] == "flip":
+                if e.units:
+                    i = m[1] % len(e.units)
+                    b = bytearray(e.units[i])
+                    b[m[2] % len(b)] ^= 1 << (m[3] % 8)
+                    e.units[i] = bytes(b)
+                    tags.append("links:tamper-flip")
+            else:
+                if m[0] == "cross":
+                    src = ends.get((m[1], m[2]))
+                    pool = src.hist if src is not None and src is not e else []
+                    idx, at = m[3], m[4]
+                    tag = "links:tamper-frame-of-another-" + ("link" if src is not None and src.link != e.link else "direction")
+                elif m[0] == "own":
+                    pool, idx, at = peer(e).hist, m[1], m[2]
+                    tag = "links:tamper-own-frame-reflected"
+                elif m[0] == "replay":
+                    pool, idx, at = e.hist, m[1], m[2]
+                    tag = "links:tamper-replay"
+                else:
+                    raise ValueError(op)
+                if pool:
+                    pos = lo + at % (len(e.units) - lo + 1)
+                    e.units.insert(pos, pool[idx % len(pool)])
+                    tags.append(tag)
+        else:
+            raise ValueError(op)
+
+    # ---- everything still parked is read out (through the API, nothing else): one read more than there are records
+    for e in ends.values():
+        sd = e.side
+        if sd.conn._consumer is not None:
+            continue
+        for _ in range(200):
+            rid = sd.next_id
+            sd.run_script([["r", []]])
+            do(f"call {e.name} r0", e)
+            after(e)
+            if sd.read_result.get(rid, ("", ""))[0] != "ok":
+                break
+
+    # ---- the oracle, connection by connection: exactly `delivery_exact` / `tamper_prefix` for ITS OWN link
+    def short(bs):
+        return [f"{len(b)}:{b[:6].hex()}" for b in bs[:6]]
+    origin = {}
+    for o in ends.values():
+        for j, r in enumerate(o.sent):
+            if r:
+                origin.setdefault(bytes(r), []).append(f"record #{j} sealed for {o.name}")
+    nontrivial = False
+    for e in ends.values():
+        sd, c = e.side, e.side.conn
+        surfaced = list(sd.surf) + [bytes(x) for x in c._inbound_records]
+        sent = e.sent
+        hung = c.state == "hung up"
+        dropped = sd.pipe.lost > 0
+        if surfaced != sent[:len(surfaced)]:
+            j = next((i for i, r in enumerate(surfaced) if i >= len(sent) or r != sent[i]), len(surfaced))
+            bad = surfaced[j] if j < len(surfaced) else b""
+            where = [w for w in origin.get(bytes(bad), []) if not w.endswith(" " + e.name)]
+            if where:
+                viol.append(("foreign-record",
+                             f"connection {e.name} (link {e.link}) surfaced {short(surfaced)}; its peer sealed {short(sent)} for it: "
+                             f"item #{j} ({len(bad)}:{bad[:6].hex()}) is {where[0]} - a record its peer never sent"))
+            else:
+                viol.append(("not-a-prefix", f"connection {e.name}: records surfaced {short(surfaced)} are not a prefix of the "
+                                             f"records its peer sent {short(sent)}"))
+        got_frames = split_frames(e.fed)
+        first_bad = None
+        for j, f in enumerate(got_frames):
+            if j >= len(e.hist) or f != e.hist[j]:
+                first_bad = j
+                break
+        if not sd.closed:
+            if first_bad is None:
+                want = sent[:len(got_frames)]
+                if surfaced != want or hung or dropped or e.excs:
+                    viol.append(("lossless", f"connection {e.name}: unmanipulated frames ({len(got_frames)} complete): surfaced "
+                                             f"{short(surfaced)} want {short(want)} hung={hung} dropped={dropped} exc={e.excs}"))
+            else:
+                want = sent[:first_bad]
+                if surfaced != want:
+                    viol.append(("manipulated-delivered", f"connection {e.name}: frame #{first_bad} on the wire is not the one its "
+                                                          f"peer sent; surfaced {short(surfaced)} want exactly {short(want)}"))
+                if not hung or not dropped or not c._error:
+                    viol.append(("not-dropped", f"connection {e.name}: frame #{first_bad} on the wire is not the one its peer sent "
+                                                f"but state={c.state!r} loseConnection calls={sd.pipe.lost} _error={c._error!r}"))
+                if sd.pipe.lost > 1:
+                    viol.append(("dropped-twice", f"connection {e.name}: loseConnection called {sd.pipe.lost} times"))
+        if e.lost_called:
+            n_before = sd.lost_at_id
+            unfired = [i for i in range(n_before) if i not in sd.read_result]
+            if unfired:
+                viol.append(("read-never-fails", f"connection {e.name}: reads {unfired} were pending at connectionLost and never fired"))
+            badr = [i for i, r in sd.read_result.items() if r[0] == "err" and r[1] != "ConnectionClosed"]
+            if badr:
+                viol.append(("read-wrong-error", f"connection {e.name}: reads {badr} failed with {[sd.read_result[i][1] for i in badr]}"))
+            for rec in sd.consumers:
+                h = rec["holder"]
+                if rec["d"] is not None and "done" not in h and "fail" not in h and not rec["after_lost"] and not rec.get("detached"):
+                    viol.append(("consumer-never-fails", f"connection {e.name}: consumer Deferred pending at connectionLost never fired"))
+                if rec.get("pending_at_loss") and (h.get("fail") != "ConnectionClosed" or "done" in h):
+                    viol.append(("consumer-completes-on-loss",
+                                 f"connection {e.name}: lost with the consumer Deferred outstanding (expected={rec['expected']}): it "
+                                 f"must errback with ConnectionClosed, but done={h.get('done')} fail={h.get('fail')}"))
+        ttags = []
+        for sig, msg in threshold_oracle(sd, ttags):
+            viol.append((sig, f"connection {e.name}: {msg}"))
+        tags.extend(t for t in ttags if t in ("thr:attach-over-backlog", "thr:reached-exact", "thr:reached-over", "thr:pending",
+                                              "thr:detached-by-app", "thr:reattach-after-detach"))
+        if hung:
+            tags.append("links:hung:" + (type(c._error).__name__ if c._error else "?"))
+        nontrivial = nontrivial or bool(surfaced) or hung
+    nl = len({e.link for e in ends.values()})
+    tags.append(f"links:{nl}-links-{len(ends)}-connections")
+    dirs = sum(1 for e in ends.values() if e.sent)
+    tags.append(f"links:{dirs}-directions-carry-records")
+    tags = sorted(set(tags))     # per case: did it happen at all
+    return Result(lines, exp, viol, tags, nontrivial=nontrivial)
 
 # ---------------------------------------------------------------------------
 # generators
@@ -1555,9 +1899,228 @@ def threshold_exhaustive():
     return out
 
 
+# ---------------------------------------------------------------------------
+# several connections in one process: corpus, generator, small-scope enumeration
+
+def links_corpus():
+    R1 = [["r", []]]
+    out = []
+
+    def case(cls, sched, **kw):
+        c = dict(kind="links", cls=cls, sched=sched)
+        c.update(kw)
+        out.append(c)
+    # twins: two sessions / two links doing the very same thing (same sizes at the same positions, other contents, other
+    # keys), one after the other and side by side.  First of all cases: nothing any earlier case did is in the process
+    for seq in (True, False):
+        sched = [["open", 0]] + ([] if seq else [["open", 1]])
+        for L in (0, 1):
+            if seq and L:
+                sched += [["lost", 0, "R", "done"], ["lost", 0, "S", "done"], ["open", 1]]
+            sched += [["send", L, "S", 16, 100 + L], ["send", L, "S", 3, 200 + L], ["send", L, "R", 16, 300 + L],
+                      ["deliver", L, "R", None], ["deliver", L, "S", 20], ["call", L, "R", R1]]
+        sched += [["deliver", 0, "S", None], ["deliver", 1, "S", None], ["call", 1, "S", [["c", 16, "file", []]]], ["call", 0, "S", R1]]
+        case("sequential" if seq else "concurrent", sched)
+    # both ends of one link in this process: the ping is parked at the receiver (nobody reads there yet) while the sender
+    # waits for the answer - its read must stay pending, then get the pong; the receiver then reads the ping
+    case("echo", [["open", 0], ["send", 0, "S", 16, 1], ["deliver", 0, "R", None], ["call", 0, "S", R1],
+                  ["send", 0, "R", 18, 2], ["deliver", 0, "S", 7], ["deliver", 0, "S", None], ["call", 0, "R", R1]])
+    case("echo", [["open", 0], ["send", 0, "R", 5, 1], ["send", 0, "R", 0, 2], ["deliver", 0, "S", None], ["call", 0, "R", [chain(1)]],
+                  ["send", 0, "S", 3, 3], ["deliver", 0, "R", None], ["call", 0, "S", [["c", 5, "file", R1]]]])
+    # a session that ends with an unread record parked, then an unrelated one (fresh key, fresh objects) whose first act
+    # is a read: it must wait for its own peer
+    for end in ([["call", 0, "R", [["x"]]]], [["lost", 0, "R", "reset"], ["lost", 0, "S", "done"]], []):
+        case("sequential", [["open", 0], ["send", 0, "S", 22, 1], ["send", 0, "S", 23, 2], ["deliver", 0, "R", None],
+                            ["call", 0, "R", R1]] + end +
+                           [["open", 1], ["call", 1, "R", R1], ["send", 1, "S", 21, 3], ["deliver", 1, "R", 7], ["deliver", 1, "R", None],
+                            ["call", 1, "S", R1], ["send", 1, "R", 2, 4], ["deliver", 1, "S", None]])
+    # the same with consumers: the earlier session's consumer got part of its bytes; the later one attaches over nothing
+    case("sequential", [["open", 0], ["call", 0, "R", [["c", 100, "file", []]]], ["send", 0, "S", 40, 1], ["deliver", 0, "R", None],
+                        ["call", 0, "R", [["d"]]], ["send", 0, "S", 17, 2], ["deliver", 0, "R", None], ["lost", 0, "R", "done"],
+                        ["open", 1], ["call", 1, "R", [["c", 17, "file", R1]]], ["send", 1, "S", 16, 3], ["send", 1, "S", 1, 4],
+                        ["send", 1, "S", 3, 5], ["deliver", 1, "R", None]])
+    # two links at once: a record parked on one, a read pending on the other; then the other way round
+    case("concurrent", [["open", 0], ["open", 1], ["send", 0, "S", 15, 1], ["deliver", 0, "R", None], ["call", 1, "R", R1],
+                        ["send", 1, "S", 16, 2], ["deliver", 1, "R", 7], ["deliver", 1, "R", None], ["call", 0, "R", R1]])
+    case("concurrent", [["open", 0], ["open", 1], ["call", 0, "R", R1], ["call", 0, "R", R1], ["send", 1, "S", 16, 2],
+                        ["deliver", 1, "R", None], ["send", 0, "S", 15, 1], ["deliver", 0, "R", None], ["call", 1, "R", [chain(1)]]])
+    # a consumer attached on one link while the other link's records arrive and are read
+    case("concurrent", [["open", 0], ["open", 1], ["call", 0, "R", [["c", None, "consumer", []]]], ["send", 1, "S", 16, 2],
+                        ["send", 1, "S", 3, 3], ["deliver", 1, "R", None], ["send", 0, "S", 15, 1], ["deliver", 0, "R", None],
+                        ["call", 1, "R", R1], ["call", 0, "R", [["d"]]], ["send", 0, "S", 2, 4], ["deliver", 0, "R", None]])
+    case("concurrent", [["open", 0], ["open", 1], ["send", 0, "S", 5, 1], ["send", 0, "S", 6, 2], ["deliver", 0, "R", None],
+                        ["send", 1, "R", 7, 3], ["deliver", 1, "S", None], ["call", 1, "S", [["c", 7, "file", R1]]],
+                        ["call", 0, "R", [["c", 5, "consumer", [["c", 6, "fc", []]]]]]])
+    # three links, all six directions carry records, delivered a few bytes at a time in turn
+    sched = [["open", 0], ["open", 1], ["open", 2]]
+    for L in range(3):
+        for role in ("S", "R"):
+            sched += [["send", L, role, 2 + L, 10 * L + (role == "S")], ["send", L, role, 0, 0], ["send", L, role, 17, 50 + L]]
+    sched += [["call", 1, "R", [chain(2)]], ["call", 2, "S", R1]]
+    for turn in range(12):
+        for L in range(3):
+            for role in ("S", "R"):
+                sched.append(["deliver", L, role, 13 + turn + L])
+    for L in range(3):
+        for role in ("S", "R"):
+            sched.append(["deliver", L, role, None])
+    case("concurrent", sched)
+    # frames that belong elsewhere: another link's frame (another key), the other direction's, the connection's own,
+    # an earlier one of its own stream - each as the very first frame and in the middle
+    base = [["open", 0], ["open", 1]] + [["send", L, role, 4 + L, 7 * L + i] for L in (0, 1) for role in ("S", "R") for i in (0, 1, 2)]
+    for m in (["cross", 0, "R", 0, 0], ["cross", 0, "R", 1, 1], ["cross", 0, "S", 0, 0], ["cross", 1, "S", 2, 2], ["own", 0, 0], ["own", 1, 2],
+              ["replay", 0, 1], ["replay", 1, 3], ["flip", 1, 30, 2]):
+        for app in ([["call", 1, "R", [chain(3)]]], [["call", 1, "R", [["c", 100, "file", []]]]], []):
+            case("tamper", base + app + [["tamper", 1, "R", m], ["deliver", 0, "R", None], ["deliver", 1, "R", 50], ["deliver", 1, "R", None],
+                                         ["deliver", 1, "S", None], ["deliver", 0, "S", None]])
+    # one link's whole stream delivered to the other link's connection instead (misrouted): first frame refused
+    case("tamper", [["open", 0], ["open", 1], ["send", 0, "S", 5, 1], ["send", 0, "S", 6, 2], ["send", 1, "S", 5, 3],
+                    ["tamper", 1, "R", ["cross", 0, "R", 0, 0]], ["tamper", 1, "R", ["cross", 0, "R", 1, 1]],
+                    ["call", 1, "R", [chain(2)]], ["deliver", 1, "R", None], ["deliver", 0, "R", None], ["call", 0, "R", [chain(2)]]])
+    return out
+
+
+def gen_links_case(rng):
+    cls = rng.choice(["concurrent", "concurrent", "concurrent", "sequential", "sequential", "echo", "tamper", "tamper"])
+    nl = 1 if cls == "echo" else rng.choice([2, 2, 3])
+    seed = [rng.randrange(10**6)]
+
+    def sz():
+        return rng.choice(SMALL) if rng.random() < 0.8 else rng.choice([0, 1, 2, 3, rng.randrange(0, 300)])
+
+    def send(L, role=None):
+        seed[0] += 1
+        return ["send", L, role or rng.choice(["S", "R"]), sz(), seed[0]]
+
+    def deliver(L, role=None):
+        return ["deliver", L, role or rng.choice(["S", "R"]), rng.choice([1, 3, 7, 23, 44, 45, 46, 100, 1000, None, None, None, None])]
+
+    def call(L, role=None):
+        r = rng.random()
+        if r < 0.45:
+            sc = [["r", []]]
+        elif r < 0.6:
+            sc = [chain(rng.randrange(1, 4))]
+        elif r < 0.75:
+            sc = [["c", rng.choice([None, 0, 1, 3, 16, 17, 40, 100]), rng.choice(["file", "consumer", "fc"]),
+                   rng.choice([[], [["r", []]]])]]
+        elif r < 0.82:
+            sc = [["d"]]
+        else:
+            sc = rand_script(rng, budget=[rng.choice([1, 2, 3, 5])])
+        return ["call", L, role or rng.choice(["S", "R"]), sc]
+
+    def tamper(L, role=None):
+        k = rng.choice(["cross", "cross", "cross", "own", "replay", "flip"])
+        if k == "cross":
+            m = ["cross", rng.randrange(nl), rng.choice(["S", "R"]), rng.randrange(8), rng.randrange(8)]
+        elif k == "flip":
+            m = ["flip", rng.randrange(8), rng.choice([rng.randrange(4), 4 + rng.randrange(24), 28 + rng.randrange(16), 44 + rng.randrange(40)]),
+                 rng.randrange(8)]
+        else:
+            m = [k, rng.randrange(8), rng.randrange(8)]
+        return ["tamper", L, role or rng.choice(["S", "R"]), m]
+
+    sched = []
+    if cls == "sequential":
+        for L in range(nl):
+            sched.append(["open", L])
+            if L and rng.random() < 0.6:
+                sched.append(["call", L, rng.choice(["S", "R"]), [["r", []]]])     # reads before its own peer has sent anything
+            for _ in range(rng.randrange(2, 9)):
+                sched.append(send(L))
+            for _ in range(rng.randrange(1, 5)):
+                sched.append(deliver(L))
+            sched.append(deliver(L, "R"))
+            sched.append(deliver(L, "S"))
+            for _ in range(rng.randrange(0, 3)):       # fewer reads than records, as a rule: something stays parked
+                sched.append(call(L))
+            if L < nl - 1:
+                end = rng.choice(["lost", "lost-one", "close", "nothing", "nothing"])
+                if end == "lost":
+                    sched += [["lost", L, "R", rng.choice(["done", "reset", "none"])], ["lost", L, "S", "done"]]
+                elif end == "lost-one":
+                    sched.append(["lost", L, rng.choice(["S", "R"]), rng.choice(["done", "reset", "none"])])
+                elif end == "close":
+                    sched.append(["call", L, rng.choice(["S", "R"]), [["x"]]])
+        for _ in range(rng.randrange(0, 6)):           # the earlier sessions' objects are still around
+            L = rng.randrange(nl)
+            sched.append(rng.choice([call, deliver, send])(L))
+    else:
+        opened = [0]
+        sched.append(["open", 0])
+        if cls != "echo" and rng.random() < 0.6:
+            for L in range(1, nl):
+                sched.append(["open", L])
+                opened.append(L)
+        for _ in range(rng.randrange(12, 60)):
+            if len(opened) < nl and rng.random() < 0.08:
+                sched.append(["open", len(opened)])
+                opened.append(len(opened))
+                continue
+            L = rng.choice(opened)
+            r = rng.random()
+            if r < 0.32:
+                sched.append(send(L))
+            elif r < 0.66:
+                sched.append(deliver(L))
+            elif r < 0.93:
+                sched.append(call(L))
+            elif r < 0.96:
+                sched.append(["lost", L, rng.choice(["S", "R"]), rng.choice(["done", "reset", "none"])])
+            elif cls == "tamper":
+                sched.append(tamper(L))
+        if cls == "tamper":
+            pos = rng.randrange(len(sched) // 2, len(sched) + 1)
+            sched.insert(pos, tamper(rng.choice(opened)))
+        for L in range(nl):
+            if L not in opened:
+                sched.append(["open", L])
+                sched.append(send(L))
+        if rng.random() < 0.7:
+            for L in range(nl):
+                sched += [deliver(L, "R")[:3] + [None], deliver(L, "S")[:3] + [None]]
+    if rng.random() < 0.04:
+        big = rng.randrange(len(sched) + 1)
+        sched.insert(big, ["send", 0, rng.choice(["S", "R"]), rng.choice(SIZES[4:]), 77])
+    return dict(kind="links", cls=cls, sched=sched, loss=rng.choice(["done", "done", "reset", "none"]))
+
+
+def links_exhaustive():
+    """small scope, complete: two links, on each one record sent, delivered, and one read on the receiving end - every
+    interleaving of the six steps (a record travels after it was sent); and the same with both ends of ONE link"""
+    import itertools
+    out = []
+    for two_links in (True, False):
+        a = (0, "S", "R")
+        b = (1, "S", "R") if two_links else (0, "R", "S")
+        steps = []
+        for (L, snd, rcv), sd in ((a, 1), (b, 2)):
+            steps.append([["send", L, snd, 3 + sd, sd], ["deliver", L, rcv, None], ["call", L, rcv, [["r", []]]]])
+        for perm in set(itertools.permutations([0, 0, 0, 1, 1, 1])):
+            for read_first in ((False, False), (True, False), (False, True), (True, True)):
+                idx = [0, 0]
+                sched = [["open", 0]] + ([["open", 1]] if two_links else [])
+                order = []
+                for w in perm:
+                    order.append((w, idx[w]))
+                    idx[w] += 1
+                for w, i in order:
+                    # read_first: the read comes before the send (pending when the record arrives) instead of last
+                    seq = [2, 0, 1] if read_first[w] else [0, 1, 2]
+                    sched.append(steps[w][seq[i]])
+                out.append(dict(kind="links", cls="exhaustive", sched=sched))
+    return out
+
+
+
 def cases(rng, tier):
-    out = corpus() + hold_cases() + backlog_cases() + threshold_corpus()
+    # the multi-connection corpus comes first: whatever leaks from one Connection object to the next is then reported
+    # with a case that shows it on its own (sessions side by side / one after the other inside ONE case)
+    out = links_corpus() + corpus() + hold_cases() + backlog_cases() + threshold_corpus()
     n = 1 if tier == "quick" else 25
+    for _ in range(150 * n):
+        out.append(gen_links_case(rng))
     for _ in range(140 * n):
         out.append(gen_case(rng, adversarial=False))
     for _ in range(160 * n):
@@ -1569,7 +2132,10 @@ def cases(rng, tier):
         out += every_point()
         out += every_cut()
         out += threshold_exhaustive()
+        out += links_exhaustive()
     else:
+        lx = links_exhaustive()
+        out += [lx[i] for i in sorted(rng.sample(range(len(lx)), 40))]
         thr = threshold_exhaustive()
         out += [thr[i] for i in sorted(rng.sample(range(len(thr)), 80))]
         cuts = every_cut()
@@ -1589,16 +2155,68 @@ def search(rng, seconds, seeds):
     t0 = time.time()
     for c in seeds:
         yield c, run_case(c)
+    for c in links_corpus() + links_exhaustive():
+        yield c, run_case(c)
     for c in corpus() + threshold_corpus() + hold_cases() + backlog_cases() + every_cut() + every_point() + threshold_exhaustive():
         yield c, run_case(c)
         if time.time() - t0 > seconds:
             return
     while time.time() - t0 < seconds:
-        c = gen_threshold_case(rng) if rng.random() < 0.3 else gen_case(rng, adversarial=rng.random() < 0.6)
+        r = rng.random()
+        c = gen_links_case(rng) if r < 0.25 else gen_threshold_case(rng) if r < 0.5 else gen_case(rng, adversarial=rng.random() < 0.6)
         yield c, run_case(c)
 
 
+def fresh_violations(case):
+    """signatures of the oracle's violations when `case` is the only thing a new Python process ever runs"""
+    import json
+    import subprocess
+    import sys
+    root = os.path.dirname(os.path.dirname(os.path.dirname(os.path.abspath(__file__))))
+    prog = ("import json, sys; from harness.props import c06; "
+            "print('SIGS ' + json.dumps([s for s, _ in c06.run_case(json.loads(sys.stdin.read())).violations]))")
+    r = subprocess.run([sys.executable, "-c", prog], input=json.dumps(case), capture_output=True, text=True, cwd=root, timeout=120)
+    for line in r.stdout.splitlines():
+        if line.startswith("SIGS "):
+            return json.loads(line[5:])
+    return []
+
+
 def shrink(case):
+    if case.get("kind") == "links":
+        # a candidate counts only if it still fails in a process that has run nothing else: what one Connection object
+        # leaves behind for the next may also have been left behind by an earlier CASE of this process, and a replay
+        # has to show the failure on its own
+        import time
+        t0 = time.time()
+
+        def ok(c):
+            if time.time() - t0 > 9:
+                return False
+            try:
+                return bool(run_case(c).violations) and bool(fresh_violations(c))
+            except Exception:
+                return False
+        sched = case["sched"]
+        for n in (16, 8, 4, 2, 1):
+            for i in range(0, len(sched), n):
+                if any(op[0] != "open" for op in sched[i:i + n]):
+                    c = dict(case)
+                    c["sched"] = sched[:i] + [op for op in sched[i:i + n] if op[0] == "open"] + sched[i + n:]
+                    if ok(c):
+                        yield c
+        for i, op in enumerate(sched):
+            if op[0] == "send" and op[3] > 3:
+                c = dict(case)
+                c["sched"] = sched[:i] + [op[:3] + [3, op[4]]] + sched[i + 1:]
+                if ok(c):
+                    yield c
+            if op[0] == "deliver" and op[3] is not None:
+                c = dict(case)
+                c["sched"] = sched[:i] + [op[:3] + [None]] + sched[i + 1:]
+                if ok(c):
+                    yield c
+        return
     recs = case["recs"]
     for i in range(len(recs)):
         c = dict(case)
